@@ -15,6 +15,6 @@ for i in c.harness.gen(rng, sys.argv[3] if len(sys.argv)>3 else "quick"):
     if o.failed or o.raised:
         bad+=1
         for f in (o.failed or [str(o.raised)]): cnt[f[:160]]+=1
-        if bad<=4: print(json.dumps(i)[:600], o.failed, o.raised, json.dumps(o.result, default=str)[:900])
+        if bad<=4: print(json.dumps(i, default=repr)[:600], o.failed, o.raised, json.dumps(o.result, default=str)[:900])
 print(n, bad)
 for k,v in cnt.most_common(): print(v, k)
